@@ -586,12 +586,16 @@ PROPS = {
         nontrivial=lambda line: '"op":"reset"' not in line,
         rule="ugm: random cases on the real ugm.Manager singleton (reset with ClearUserTrackers/ClearGroupTrackers/ClearConfigLimits): queue universe root, root.a, root.a.b, root.c; "
              "users u1..u3 (+ '*'), groups g1..g3 (+ '*'), each user with a fixed ordered group list; 3..6 applications; limit layouts (named users/groups split over 1-2 entries, wildcard user / wildcard group entries, "
-             "max resources over {cpu,mem} and/or max applications, values shrinking with the depth) generated until configs.Validate accepts them; per case up to 5 Manager.UpdateConfig calls interleaved with 10..35 of: "
+             "max resources over {cpu,mem} and/or max applications, values shrinking with the depth) generated until configs.Validate accepts them; per case up to 5 Manager.UpdateConfig calls with freshly drawn layouts "
+             "plus up to 4 TARGETED reloads whose only change is in the NAMED user (30%: group) limits of one queue that also carries a wildcard user (group) limit - a name dropped (fall back to the wildcard), a name added (leaves the wildcard) or the values of a named entry changed, "
+             "preferring principals that hold allocations there - while the wildcard entry and everything else stay byte-identical (stats reload:named-{drop,add,change}[:busy]-beside-same-wildcard:{user,group}, several hundred of each per quick run); in half of the cases the first configuration is forced to give "
+             "the queue of one application a named limit for its user (and one of its groups) beside a wildcard limit and the application gets an allocation at once, so that its trackers exist when the named limit goes; all interleaved with 10..35 of: "
              "sched (CanRunApp for an application that holds nothing, Headroom, FitInMaxUndef, IncreaseTrackedResource - what Queue.TryAllocate/Application.tryAllocate do), Headroom, CanRunApp, forced IncreaseTrackedResource, "
              "DecreaseTrackedResource of a live allocation (removeApp with the last one), a few off-contract releases. After every operation the complete manager state (every queue tracker of every user and group tracker incl. useWildCard, "
              "application->group links, the limit maps of the active configuration; cross-checked against GetResourceUsageDAOInfo) is dumped; the driver steps the model from the previous dumped state (all orders of the map iterations of "
              "clearEarlierSetLimits), compares answer and state, and evaluates the clauses enforce-res/enforce-apps, usage-ne-sum/apps-ne-live (against a ledger of live allocations), group-changed, limits.* (limit in force vs limit configured "
-             "for every user/group x queue). Every case is re-executed twice to detect dependence on Go's map order. non-trivial = not a reset line; distinct = distinct protocol lines",
+             "for every user/group x queue; a difference is attributed to a known class only when a reload of the case met the documented precondition of that class - F17 stale-wildcard: a queue lost its wildcard limit beside users named before and after, and the latest configuration sets no wildcard there; "
+             "F18 named-lost / group-lost: a limit dropped above a kept one - otherwise it is reported as named-not-in-force / wildcard-differs / wildcard-kept / wildcard-not-applied / group-not-in-force). Every case is re-executed twice to detect dependence on Go's map order. non-trivial = not a reset line; distinct = distinct protocol lines",
         trusted=["exact integer arithmetic in the tracker model (no quantity saturates; C18 owns saturation)",
                  "queue paths start with the root queue; resource vectors are Go maps (unique keys)",
                  "Go map iteration: the model iterates in list order; for the one order-sensitive loop (clearEarlierSetGroupLimits/UserLimits) the driver accepts the outcome of any order and reports the dependence",
